@@ -150,6 +150,8 @@ func verifOracle(occ []occupant) planVerdict {
 
 // ---- inputs ----
 
+var verifSmallPlan bool
+
 var verifPackagers = []string{"deb", "rpm", ""}
 
 func verifSeg(name string) string {
@@ -178,13 +180,19 @@ var verifPlanTypes = []string{TypeFile, TypeDir, TypeSymlink, TypeConfig, TypeTr
 func verifPlanEntry(name string, ntypes int, srcs []string) (planEntry, *Content) {
 	var e planEntry
 	e.typ = verifPlanTypes[v.NondetChoice(name+".type", ntypes)]
-	e.packager = verifPackagers[v.NondetChoice(name+".packager", 3)]
+	if !verifSmallPlan {
+		e.packager = verifPackagers[v.NondetChoice(name+".packager", 3)]
+	}
 	e.canon = "/" + verifSeg(name+".seg1")
 	if v.NondetBool(name + ".deep") {
 		e.canon += "/" + verifSeg(name+".seg2")
 	}
 	spelled := e.canon
-	switch v.NondetChoice(name+".spelling", 3) {
+	nsp := 3
+	if verifSmallPlan {
+		nsp = 2
+	}
+	switch v.NondetChoice(name+".spelling", nsp) {
 	case 1:
 		spelled = e.canon + "/"
 		e.trailing = true
@@ -324,7 +332,11 @@ func verifCheckPlan(res Contents, occ []occupant) {
 	v.Assert(!extra, "plan-nothing-else")
 }
 
-func verifPlan(k, ntypes int) {
+func verifPlan(k, ntypes int) { verifPlanOpt(k, ntypes, false) }
+
+// verifPlanOpt: small = every entry is addressed to all packagers and spelled canonically (keeps 3-entry lists tractable).
+func verifPlanOpt(k, ntypes int, small bool) {
+	verifSmallPlan = small
 	srcs := verifPlanFS()
 	packager := []string{"deb", "rpm", "apk"}[v.NondetChoice("packager", 3)]
 	var raw Contents
@@ -369,3 +381,40 @@ func Verif_C05_K4_Plan1() { verifPlan(1, len(verifPlanTypes)) }
 
 // Verif_C05_K4_Plan2: all pairs of entries over the main entry types.
 func Verif_C05_K4_Plan2() { verifPlan(2, v.Bound("K4.types2", 5, len(verifPlanTypes))) }
+
+// Verif_C05_K4_Plan3_Thorough: all triples of entries over {file, dir, symlink, config, tree}, addressed to all packagers.
+func Verif_C05_K4_Plan3_Thorough() { verifPlanOpt(3, 5, true) }
+
+// Verif_C05_K4_OrderIndependence: the outcome of PrepareForPackager (error or
+// not, and the whole plan) is the same for every iteration order of the Go
+// maps it ranges over (glob results, the content map).
+func Verif_C05_K4_OrderIndependence() {
+	srcs := verifPlanFS()
+	var raw1, raw2 Contents
+	for i := 0; i < 2; i++ {
+		e, c := verifPlanEntry([]string{"e0", "e1"}[i], 5, srcs)
+		_ = e
+		raw1 = append(raw1, c)
+		cp := *c
+		raw2 = append(raw2, &cp)
+	}
+	mt := time.Unix(1700000000, 0).UTC()
+	v.PermuteMaps(false)
+	res1, err1 := PrepareForPackager(raw1, 0o022, "deb", false, mt)
+	v.PermuteMaps(true)
+	res2, err2 := PrepareForPackager(raw2, 0o022, "deb", false, mt)
+	v.PermuteMaps(false)
+	v.Reach("K4.order.ran")
+	v.Assert((err1 == nil) == (err2 == nil), "plan-verdict-independent-of-map-order")
+	if err1 == nil && err2 == nil {
+		same := len(res1) == len(res2)
+		if same {
+			for i := range res1 {
+				if res1[i].Destination != res2[i].Destination || res1[i].Type != res2[i].Type || res1[i].Source != res2[i].Source {
+					same = false
+				}
+			}
+		}
+		v.Assert(same, "plan-independent-of-map-order")
+	}
+}
